@@ -41,6 +41,7 @@ type Case struct {
 	Proto                                             bool   `json:",omitempty"` // the probe carries X-Forwarded-Proto: https (in lower case, as proxies send it) in the first header slot
 	After                                             bool   `json:",omitempty"` // before the probe, a GET that only the middleware matches (the endpoint is a POST route, a GET route with a constraint fails late): the middleware reads its parameter again after Next()
 	Multi                                             bool   `json:",omitempty"` // the probe carries one header (X-Multi) in two lines, in the first header slots
+	Rng                                               bool   `json:",omitempty"` // the probe carries Range: bytes=0-5 in the very first header slot; the handler keeps the unit that Range() hands out
 	Pre                                               string `json:",omitempty"` // middleware in front of the endpoint: "" | mw-next (passes on) | mw-params (reads its own route parameter and other accessors, keeps them, passes on)
 }
 
@@ -113,6 +114,13 @@ func (r *run) capture(c fiber.Ctx, cs Case, probe bool) {
 	add("IP", c.IP(), "")
 	for _, ip := range c.IPs() {
 		add("IPs", ip, "")
+	}
+	if cs.Rng && probe {
+		if rg, err := c.Range(1000); err == nil {
+			add("Range().Type", rg.Type, "bytes")
+		} else {
+			add("Range() error", err.Error(), "no error")
+		}
 	}
 	scheme := "http"
 	if cs.Proto && probe {
@@ -243,6 +251,9 @@ func (cs Case) probeWire() string {
 	}
 	if cs.Proto {
 		multi = "X-Forwarded-Proto: https\r\n" + multi // the first header slot; later requests carry other values there
+	}
+	if cs.Rng {
+		multi = "Range: bytes=0-5\r\n" + multi
 	}
 	return fmt.Sprintf("POST /u/%s/%s?probe=1&name=%s&tags=%s&tags=%s HTTP/1.1\r\nHost: %s.%s.example.com\r\n"+multi+"X-Name: %s\r\nAccept: %s\r\nCookie: ck=%s; other=%s\r\nX-Forwarded-For: 1.2.3.4, 5.6.7.8\r\n%sContent-Type: %s\r\nContent-Length: %d\r\n\r\n%s",
 		cs.ID, cs.Rest, cs.QName, cs.T1, cs.T2, cs.H1, cs.H2, cs.XName, probeAccept, cs.Ck, cs.T1, ce, ct, len(body), body)
@@ -415,7 +426,7 @@ func genCase(t *rapid.T) Case {
 	cs := Case{ID: word(t, "id", 3, 9), Rest: word(t, "rest", 3, 9), QName: word(t, "qn", 3, 9), T1: word(t, "t1", 2, 5), T2: word(t, "t2", 2, 5),
 		H1: word(t, "h1", 2, 5), H2: word(t, "h2", 2, 5), XName: word(t, "xn", 3, 9), Ck: word(t, "ck", 3, 9), FName: word(t, "fn", 3, 9), JSONBody: rapid.IntRange(0, 3).Draw(t, "json") == 0,
 		CEnc: rapid.SampledFrom([]string{"", "", "", "identity", "utf-8", "compress"}).Draw(t, "cenc"),
-		Pre:  rapid.SampledFrom([]string{"", "", "mw-next", "mw-params", "mw-params"}).Draw(t, "pre"), Rewrite: rapid.IntRange(0, 3).Draw(t, "rewrite") == 0, Miss: rapid.IntRange(0, 2).Draw(t, "miss") == 0, Multi: rapid.Bool().Draw(t, "multi"), After: rapid.Bool().Draw(t, "after"), Proto: rapid.Bool().Draw(t, "proto")}
+		Pre:  rapid.SampledFrom([]string{"", "", "mw-next", "mw-params", "mw-params"}).Draw(t, "pre"), Rewrite: rapid.IntRange(0, 3).Draw(t, "rewrite") == 0, Miss: rapid.IntRange(0, 2).Draw(t, "miss") == 0, Multi: rapid.Bool().Draw(t, "multi"), After: rapid.Bool().Draw(t, "after"), Proto: rapid.Bool().Draw(t, "proto"), Rng: rapid.Bool().Draw(t, "rng")}
 	n := rapid.IntRange(1, 20).Draw(t, "nfill")
 	up := func(label string, lo, hi int) string { return strings.ToUpper(word(t, label, lo, hi)) }
 	for i := 0; i < n; i++ {
